@@ -158,7 +158,29 @@ def std_kinds(names, cfg_fn=None, cfg_fn2=None, partial_fn=None):
       c[fdl.VARARGS:] = [va0]
     return c
 
+  def mk_eqpos(vals):
+    c = fdl.Config(N.eqpos)
+    p0, a, va0 = vals
+    if p0 is not UNSET:
+      c[0] = p0
+    if a is not UNSET:
+      c.a = a
+    if va0 is not UNSET:
+      c[fdl.VARARGS:] = [va0]
+    return c
+
   table = {
+      'eq': Kind('eq', 2, True, mk_buildable(fdl.Config, N.eqnode), True),
+      'eqb': Kind('eqb', 2, True, mk_buildable(fdl.Config, N.eqnode_b), True),
+      'eqpar': Kind('eqpar', 2, True, mk_buildable(fdl.Partial, N.eqnode),
+                    True),
+      'eqpos': Kind('eqpos', 3, True, mk_eqpos, True),
+      'dict2r': Kind('dict2r', 2, False,
+                     lambda v: {k: x for k, x in zip(('b', 'a'), reversed(v))}),
+      'dictmix': Kind('dictmix', 2, False,
+                      lambda v: {1: v[0], 'a': v[1], None: 0, (1,): 0}),
+      'dictmixr': Kind('dictmixr', 2, False,
+                       lambda v: {(1,): 0, None: 0, 'a': v[1], 1: v[0]}),
       'cfgpos': Kind('cfgpos', 3, True, mk_cfgpos, True),
       'cfg': Kind('cfg', 2, True, mk_buildable(fdl.Config, cfg_fn), True),
       'cfg1': Kind('cfg1', 1, True, mk_buildable(fdl.Config, cfg_fn), True),
